@@ -3,10 +3,26 @@
 //!   * the Coq model (C09/Model.v: the regenerated regexes run by a derivative matcher; RFC 3986 5.2), and
 //!   * an independent ORACLE written here from the ABNF of RFC 3987 / RFC 3986 (a splitting
 //!     recogniser, no regular expression) and from the text of RFC 3986 section 5.2.
+//! Every case also runs the other public entry points of the anchored files on the same string: is_valid_iri_ref,
+//! is_valid_suffixed_iri_ref (None / Some), Iri::new / IriRef::new over &str, String, Box<str>, Rc<str>, Arc<str>,
+//! Cow (verdict, InvalidIri payload, as_str / Deref / AsRef / Borrow / as_ref / unwrap / map_unchecked / new_unchecked /
+//! new_unchecked_const / Display / as_iri / as_iri_ref, Eq / Ord / Hash / comparisons with str and across containers),
+//! BaseIri::new / BaseIriRef::new (the resolver's recogniser) with as_base / to_base / to_base_iri / as_ref /
+//! into_inner and the components seen through Deref (against RFC 3986 appendix B), Namespace's other constructors,
+//! and a second (base, reference) pair -- absolute or RELATIVE base, the reference mostly the case's own string,
+//! valid or not -- through every resolve entry point (Iri / IriRef / BaseIri / BaseIriRef, resolve / resolve_into,
+//! typed references of every IsIriRef type / &str).
 //! `--probe <hex of utf-8>` prints every verdict for one string (used to replay `ka` counter-examples).
 use sophia_api::ns::Namespace;
-use sophia_iri::{Iri, IriRef, is_absolute_iri_ref, is_relative_iri_ref};
+use sophia_iri::resolve::{BaseIri, BaseIriRef};
+use sophia_iri::{AsIri, AsIriRef, InvalidIri, Iri, IriRef, is_absolute_iri_ref, is_relative_iri_ref, is_valid_iri_ref, is_valid_suffixed_iri_ref};
+use std::borrow::{Borrow, Cow};
+use std::cmp::Ordering;
+use std::collections::hash_map::DefaultHasher;
+use std::hash::{Hash, Hasher};
 use std::panic::{AssertUnwindSafe, catch_unwind};
+use std::rc::Rc;
+use std::sync::Arc;
 use verif_harness::*;
 
 // =====================================================================================
@@ -297,6 +313,38 @@ fn mutate(r: &mut Rng, s: &str) -> String {
     v.into_iter().collect()
 }
 
+const DIRECTED_BASES: &[&str] = &["s:/a", "s:a", "s:", "s://h", "s://h/", "http://a/b/c/d;p?q", "s:/a/b", "s:a/b", "s://h?q", "s:/.."];
+const DIRECTED_REFS: &[&str] = &["", ".", "..", "./", "../", "../..", "../../..", "/.//x", "/./", "/..", "//h/..", "//h/./x", "g:h", "g:/a/../b", "g:a/./b", "?y", "#s", "./g:h", "..//x", ".//x", "x/../../../y", "/", "//", "///x", "a/./b/../c", "%2e%2e/x", ".a", "..a/b", "http:g", ";x", "g;x=1/../y"];
+/// bases that are relative references (BaseIriRef / IriRef::resolve)
+const DIRECTED_REL_BASES: &[&str] = &["", "a", "a/b", "a/b/", "/", "/a", "/a/b", "//h", "//h/", "//h/a/b", "?q", "#f", "a?q#f", ".", "..", "../a", "a/../b", "./a", "//h?q", "/..", "/.", "a/", "//u@[::1]:8/x/y", "\u{e9}/\u{e9}"];
+
+/// (relative base, reference) pairs: the last segment of the base replaced / dot segments climbing above a relative
+/// base / a first segment with ':' uncovered by the removal of "./" or of the root (results that are no IRI reference)
+const DIRECTED_REL_PAIRS: &[(&str, &str)] = &[("", "./:"), (".", "./:?Z"), ("/@", "/../,:v/~#v@'~"), ("a", "./b:c"), ("a/b", "../../c:d"), ("", ""), ("a/b/c", "../../../../x"), ("/a/b", "../../../x:y"),
+    ("//h", "../x:y"), ("//h/a", "/.//x"), ("/a", "/.//x"), ("a", "/.//x"), ("a?q", ""), ("a?q", "#f"), ("a?q#g", "?r"), ("//h?q", "x"), ("a/b", "//k/../l"), ("x", "s:a/../b"), ("..", ".."), ("../a", "../b"), ("a//b", ".."), ("", "."), ("", ".."), ("", "../:")];
+
+/// comparison of an observed result of the typed resolution against RFC 3986 5.2 (the property); same texts for every
+/// absolute base
+fn spec_check(b: &str, rf: &str, got: &Result<String, String>, inputs_rfc_valid: bool, fails: &mut Vec<String>, sum: &mut Summary) {
+    let expected = resolve52(b, rf);
+    match got {
+        Ok(g) => {
+            if *g != expected {
+                let (pb, pr) = (parse5(b), parse5(rf));
+                let dotty = |p: &str| p.split('/').any(|x| x == "." || x == "..");
+                let tag = if pr.scheme.is_some() || pr.authority.is_some() { "dot segments are kept in a reference that has a scheme or an authority" }
+                    else if !pr.path.starts_with('/') && !pr.path.is_empty() && dotty(&pb.path) { "dot segments of the base path are kept" }
+                    else if pb.authority.is_none() { "'..' above the root of a base without authority" }
+                    else { "other" };
+                fails.push(format!("[resolve differs from RFC 3986 5.2: {tag}] resolving {} against {} gives {} but RFC 3986 5.2 gives {}", show(rf), show(b), show(g), show(&expected)));
+                sum.bump(&format!("resolve:differs-from-5.2:{tag}"));
+            }
+            if !rfc_iri(g) { fails.push(format!("[resolve result is not an IRI] resolving {} against {} gives {} which is not an RFC 3987 IRI", show(rf), show(b), show(g))); }
+            else if !Iri::new(g.as_str()).is_ok() && inputs_rfc_valid { fails.push(format!("[resolve result is rejected] resolving {} against {} gives {} which Iri::new rejects", show(rf), show(b), show(g))); }
+        }
+        Err(p) => { fails.push(format!("[resolve panics] resolving the accepted reference {} against the accepted base {} panics ({p}); RFC 3986 5.2 gives {}", show(rf), show(b), show(&expected))); sum.bump("resolve:panic"); }
+    }
+}
 // =====================================================================================
 fn quiet<T>(f: impl FnOnce() -> T) -> Result<T, String> {
     catch_unwind(AssertUnwindSafe(f)).map_err(|e| e.downcast_ref::<String>().cloned().or_else(|| e.downcast_ref::<&str>().map(|s| s.to_string())).unwrap_or_else(|| "panic".into()))
@@ -306,6 +354,333 @@ fn verdicts(s: &str) -> Verdict {
     Verdict { abs: is_absolute_iri_ref(s), rel: is_relative_iri_ref(s), iri: Iri::new(s).is_ok(), iref: IriRef::new(s).is_ok(), o_iri: rfc_iri(s), o_rel: rfc_irelative_ref(s) }
 }
 fn show(s: &str) -> String { format!("{:?}", s) }
+
+// =====================================================================================
+// the other public entry points: every container type of the wrappers, every way back from a wrapper to
+// its text, the comparison/hash impls, BaseIri/BaseIriRef with their component accessors, Namespace's other
+// constructors, and every resolve entry point (typed / &str, owned / borrowed, resolve / resolve_into,
+// absolute / relative base)
+// =====================================================================================
+fn st<T: Borrow<str>>(t: &T) -> &str { <T as Borrow<str>>::borrow(t) }
+fn hash_of<T: Hash + ?Sized>(x: &T) -> u64 { let mut h = DefaultHasher::new(); x.hash(&mut h); h.finish() }
+fn leak(s: &str) -> &'static str { Box::leak(s.to_string().into_boxed_str()) }
+
+macro_rules! wrapper_checks { ($fname:ident, $W:ident) => {
+    /// `$W::new` on the container type T: verdict and error payload; for an accepted value every accessor and
+    /// conversion gives back the text; Eq/Ord/Hash and the comparisons with `str` are those of the text.
+    /// Returns Ord::cmp($W(s), $W(other)) when both are accepted.
+    fn $fname<'a, T>(tn: &str, mk: &dyn Fn(&'a str) -> T, s: &'a str, accepted: bool, other: Option<&'a str>, fails: &mut Vec<String>) -> Option<Ordering>
+    where T: Borrow<str> + Clone + Hash + Ord {
+        let w = stringify!($W);
+        let r = quiet(|| -> (Vec<String>, Option<Ordering>) {
+            let mut f = vec![];
+            let mut ord = None;
+            match $W::new(mk(s)) {
+                Err(InvalidIri(e)) => {
+                    if accepted { f.push(format!("{w}::<{tn}>::new({}) is Err although {w}::<&str>::new accepts the same text", show(s))); }
+                    if e != s { f.push(format!("{w}::<{tn}>::new({}) returns InvalidIri({}), not the rejected text", show(s), show(&e))); }
+                }
+                Ok(i) => {
+                    if !accepted { f.push(format!("{w}::<{tn}>::new({}) is Ok although {w}::<&str>::new rejects the same text", show(s))); }
+                    let texts: Vec<(&str, String)> = vec![
+                        ("as_str()", i.as_str().to_string()),
+                        ("Deref", { let t: &T = &*i; st(t).to_string() }),
+                        ("AsRef<T>", st(<$W<T> as AsRef<T>>::as_ref(&i)).to_string()),
+                        ("Borrow<T>", st(<$W<T> as Borrow<T>>::borrow(&i)).to_string()),
+                        ("AsRef<str>", <$W<T> as AsRef<str>>::as_ref(&i).to_string()),
+                        ("Borrow<str>", <$W<T> as Borrow<str>>::borrow(&i).to_string()),
+                        ("as_ref().unwrap()", { let b: $W<&str> = i.as_ref(); b.unwrap().to_string() }),
+                        ("Display", i.to_string()),
+                        ("as_iri_ref()", { let b: IriRef<&str> = i.as_iri_ref(); b.as_str().to_string() }),
+                        ("clone().unwrap()", st(&i.clone().unwrap()).to_string()),
+                        ("map_unchecked(to_string)", { let m: $W<String> = i.clone().map_unchecked(|t| st(&t).to_string()); m.unwrap() }),
+                        ("map_unchecked(identity)", { let m: $W<T> = i.clone().map_unchecked(|t| t); m.as_str().to_string() }),
+                        ("new_unchecked", $W::new_unchecked(mk(s)).as_str().to_string()),
+                    ];
+                    for (n, t) in texts { if t != s { f.push(format!("{w}::<{tn}>::new({}) then {n} gives {}", show(s), show(&t))); } }
+                    if hash_of(&i) != hash_of(s) { f.push(format!("{w}::<{tn}>({}) does not hash like its text", show(s))); }
+                    if let Some(o) = other { if let Ok(j) = $W::new(mk(o)) {
+                        let exp = s.cmp(o);
+                        let c = Ord::cmp(&i, &j);
+                        ord = Some(c);
+                        let ords = [("Ord::cmp", Some(c)), ("PartialOrd", PartialOrd::partial_cmp(&i, &j)), ("PartialOrd (swapped)", PartialOrd::partial_cmp(&j, &i).map(Ordering::reverse)),
+                                    ("PartialOrd<str>", <$W<T> as PartialOrd<str>>::partial_cmp(&i, o)), ("str: PartialOrd<_>", <str as PartialOrd<$W<T>>>::partial_cmp(o, &i).map(Ordering::reverse))];
+                        for (n, x) in ords { if x != Some(exp) { f.push(format!("{n} of {w}::<{tn}>({}) and {} is {:?}, the texts compare {:?}", show(s), show(o), x, exp)); } }
+                        let eqs = [("PartialEq", i == j), ("PartialEq (swapped)", j == i), ("not !=", !(i != j)), ("PartialEq<str>", <$W<T> as PartialEq<str>>::eq(&i, o)), ("str: PartialEq<_>", <str as PartialEq<$W<T>>>::eq(o, &i))];
+                        for (n, x) in eqs { if x != (exp == Ordering::Equal) { f.push(format!("{n} of {w}::<{tn}>({}) and {} is {x}, the texts compare {:?}", show(s), show(o), exp)); } }
+                        if exp == Ordering::Equal && hash_of(&i) != hash_of(&j) { f.push(format!("equal {w}::<{tn}>({}) hash differently", show(s))); }
+                    } }
+                }
+            }
+            (f, ord)
+        });
+        match r { Ok((f, o)) => { fails.extend(f); o } Err(p) => { fails.push(format!("{w}::<{tn}> accessors/conversions of {} panic: {p}", show(s))); None } }
+    }
+} }
+wrapper_checks!(iri_wrapper_checks, Iri);
+wrapper_checks!(iriref_wrapper_checks, IriRef);
+/// run a wrapper check over every container type; all observed orderings were compared with the text's ordering
+macro_rules! over_containers { ($f:ident, $s:expr, $acc:expr, $other:expr, $fails:expr) => {{
+    let o = [
+        $f("&str", &|x| x, $s, $acc, $other, $fails),
+        $f("String", &|x: &str| x.to_string(), $s, $acc, $other, $fails),
+        $f("Box<str>", &|x: &str| Box::<str>::from(x), $s, $acc, $other, $fails),
+        $f("Rc<str>", &|x: &str| Rc::<str>::from(x), $s, $acc, $other, $fails),
+        $f("Arc<str>", &|x: &str| Arc::<str>::from(x), $s, $acc, $other, $fails),
+        $f("Cow::Borrowed", &|x| Cow::Borrowed(x), $s, $acc, $other, $fails),
+        $f("Cow::Owned", &|x: &str| Cow::<str>::Owned(x.to_string()), $s, $acc, $other, $fails),
+    ];
+    o[0]
+}} }
+/// comparisons between wrappers over different containers, and the `const` constructors
+fn hetero_checks(s: &str, o: &str, iri: bool, fails: &mut Vec<String>) {
+    let exp = s == o;
+    let r = quiet(|| {
+        let mut e: Vec<(&str, bool, bool)> = vec![];
+        let (a, b) = (IriRef::new(s).unwrap(), IriRef::new(o).unwrap());
+        let (ao, bo) = (IriRef::new(s.to_string()).unwrap(), IriRef::new(o.to_string()).unwrap());
+        let (ac, bc) = (IriRef::new(Cow::Borrowed(s)).unwrap(), IriRef::new(Cow::<str>::Owned(o.to_string())).unwrap());
+        e.push(("IriRef<String> == IriRef<&str>", ao == b, exp)); e.push(("IriRef<&str> == IriRef<String>", a == bo, exp));
+        e.push(("IriRef<Cow> == IriRef<&str>", ac == b, exp)); e.push(("IriRef<&str> == IriRef<Cow>", a == bc, exp)); e.push(("IriRef<String> == IriRef<Cow>", ao == bc, exp));
+        let k = IriRef::new_unchecked_const(leak(s));
+        e.push(("IriRef::new_unchecked_const == IriRef<String>", k == bo, exp));
+        e.push(("IriRef::new_unchecked_const keeps the text", k.as_str() == s, true));
+        if iri {
+            let (a, b) = (Iri::new(s).unwrap(), Iri::new(o).unwrap());
+            let (ao, bo) = (Iri::new(s.to_string()).unwrap(), Iri::new(o.to_string()).unwrap());
+            let bc = Iri::new(Cow::<str>::Owned(o.to_string())).unwrap();
+            e.push(("Iri<String> == Iri<&str>", ao == b, exp)); e.push(("Iri<&str> == Iri<String>", a == bo, exp)); e.push(("Iri<&str> == Iri<Cow>", a == bc, exp));
+            let k = Iri::new_unchecked_const(leak(s));
+            e.push(("Iri::new_unchecked_const == Iri<String>", k == bo, exp));
+            e.push(("Iri::new_unchecked_const keeps the text", k.as_str() == s, true));
+        }
+        e
+    });
+    match r {
+        Ok(e) => for (n, x, want) in e { if x != want { fails.push(format!("{n} is {x} for {} and {}", show(s), show(o))); } },
+        Err(p) => fails.push(format!("heterogeneous comparison of {} and {} panics: {p}", show(s), show(o))),
+    }
+}
+
+/// BaseIri::new / BaseIriRef::new (the resolver's own recogniser) on any string; for an accepted value:
+/// as_base / to_base / to_base_iri / as_ref / into_inner / Borrow / Deref / as_iri / as_iri_ref keep the text, and the
+/// components reported through Deref are those of RFC 3986 appendix B.  Returns (BaseIri::new ok, BaseIriRef::new ok,
+/// components reported for an accepted value).
+fn base_checks(s: &str, v: &Verdict, fails: &mut Vec<String>) -> (bool, bool, Option<(bool, Parts)>) {
+    let ox_abs = BaseIri::new(s).is_ok();
+    let ox_ref = BaseIriRef::new(s).is_ok();
+    for (n, x, e) in [("BaseIri::<String>::new", BaseIri::new(s.to_string()).is_ok(), ox_abs), ("BaseIri::<Box<str>>::new", BaseIri::new(Box::<str>::from(s)).is_ok(), ox_abs),
+                      ("BaseIriRef::<String>::new", BaseIriRef::new(s.to_string()).is_ok(), ox_ref), ("BaseIriRef::<Rc<str>>::new", BaseIriRef::new(Rc::<str>::from(s)).is_ok(), ox_ref)] {
+        if x != e { fails.push(format!("{n}({}).is_ok() = {x} but {e} on a &str", show(s))); }
+    }
+    if ox_abs != v.o_iri { fails.push(format!("[resolver's recogniser differs from RFC 3987] BaseIri::new({}).is_ok() = {ox_abs} but the RFC 3987 rule IRI {} it", show(s), if v.o_iri { "accepts" } else { "rejects" })); }
+    if ox_ref != (v.o_iri || v.o_rel) { fails.push(format!("[resolver's recogniser differs from RFC 3987] BaseIriRef::new({}).is_ok() = {ox_ref} but the RFC 3987 rule IRI-reference {} it", show(s), if v.o_iri || v.o_rel { "accepts" } else { "rejects" })); }
+    let mut comp = None;
+    if v.iref {
+        let r = quiet(|| {
+            let mut f: Vec<String> = vec![];
+            let i = IriRef::new(s).unwrap();
+            let b: BaseIriRef<&str> = i.as_base();
+            let bo: BaseIriRef<String> = IriRef::new(s.to_string()).unwrap().to_base();
+            let bb: BaseIriRef<Box<str>> = IriRef::new(Box::<str>::from(s)).unwrap().to_base();
+            let mut texts: Vec<(&str, String)> = vec![
+                ("IriRef::as_base() Borrow<str>", <BaseIriRef<&str> as Borrow<str>>::borrow(&b).to_string()),
+                ("IriRef::as_base() Deref as_str", b.as_str().to_string()),
+                ("IriRef::as_base() to_string", b.to_string()),
+                ("IriRef::as_base().as_iri_ref()", b.as_iri_ref().as_str().to_string()),
+                ("IriRef::<String>::to_base() Borrow<str>", <BaseIriRef<String> as Borrow<str>>::borrow(&bo).to_string()),
+                ("IriRef::<Box<str>>::to_base() Deref as_str", bb.as_str().to_string()),
+                ("IriRef::<String>::to_base().as_iri_ref()", bo.as_iri_ref().unwrap().to_string()),
+            ];
+            if !(b == BaseIriRef::new(s).unwrap()) { f.push(format!("IriRef::as_base() of {} differs from BaseIriRef::new of the same text", show(s))); }
+            let parts_of = |x: &BaseIriRef<&str>| Parts { scheme: x.scheme().map(String::from), authority: x.authority().map(String::from), path: x.path().to_string(), query: x.query().map(String::from), fragment: x.fragment().map(String::from) };
+            let p = parts_of(&b);
+            let po = Parts { scheme: bo.scheme().map(String::from), authority: bo.authority().map(String::from), path: bo.path().to_string(), query: bo.query().map(String::from), fragment: bo.fragment().map(String::from) };
+            if p != po { f.push(format!("as_base() and to_base() of {} report different components: {:?} vs {:?}", show(s), p, po)); }
+            let abs = b.is_absolute();
+            if abs != bo.is_absolute() { f.push(format!("as_base() and to_base() of {} disagree on is_absolute", show(s))); }
+            if abs {
+                let a: BaseIri<&str> = b.clone().to_base_iri();
+                let ao: BaseIri<String> = bo.clone().to_base_iri();
+                texts.push(("to_base_iri() as_str", a.as_str().to_string()));
+                texts.push(("to_base_iri().as_iri()", a.as_iri().as_str().to_string()));
+                texts.push(("to_base_iri() [String] as_ref()", BaseIri::as_ref(&ao).as_str().to_string()));
+                texts.push(("to_base_iri() [String] into_inner()", ao.into_inner()));
+            }
+            for (n, t) in texts { if t != s { f.push(format!("IriRef::new({}) then {n} gives {}", show(s), show(&t))); } }
+            (f, abs, p)
+        });
+        match r {
+            Ok((f, abs, p)) => {
+                fails.extend(f);
+                if abs != v.o_iri { fails.push(format!("BaseIriRef({}).is_absolute() = {abs} but RFC 3987 IRI says {}", show(s), v.o_iri)); }
+                let e = parse5(s);
+                if p != e { fails.push(format!("[components differ from RFC 3986 appendix B] BaseIriRef({}) reports {:?}, appendix B gives {:?}", show(s), p, e)); }
+                comp = Some((abs, p));
+            }
+            Err(p) => fails.push(format!("IriRef::new({}) is accepted but the conversions to/through BaseIriRef panic: {p}", show(s))),
+        }
+    }
+    if v.iri {
+        let r = quiet(|| {
+            let mut f: Vec<String> = vec![];
+            let i = Iri::new(s).unwrap();
+            let a: BaseIri<&str> = i.as_base();
+            let ao: BaseIri<String> = Iri::new(s.to_string()).unwrap().to_base();
+            let aa: BaseIri<Arc<str>> = Iri::new(Arc::<str>::from(s)).unwrap().to_base();
+            let texts: Vec<(&str, String)> = vec![
+                ("as_iri()", i.as_iri().as_str().to_string()),
+                ("as_base() Borrow<str>", <BaseIri<&str> as Borrow<str>>::borrow(&a).to_string()),
+                ("as_base() Deref as_str", a.as_str().to_string()),
+                ("as_base().as_ref()", BaseIri::as_ref(&a).as_str().to_string()),
+                ("as_base().as_iri()", a.as_iri().as_str().to_string()),
+                ("as_base().as_iri_ref()", a.as_iri_ref().as_str().to_string()),
+                ("as_base().clone().into_inner()", a.clone().into_inner().to_string()),
+                ("to_base() [String] as_ref()", BaseIri::as_ref(&ao).as_str().to_string()),
+                ("to_base() [String] Borrow<str>", <BaseIri<String> as Borrow<str>>::borrow(&ao).to_string()),
+                ("to_base() [Arc<str>] into_inner()", aa.into_inner().to_string()),
+                ("to_base() [String] into_inner()", ao.clone().into_inner()),
+            ];
+            for (n, t) in texts { if t != s { f.push(format!("Iri::new({}) then {n} gives {}", show(s), show(&t))); } }
+            if !(a == BaseIri::new(s).unwrap()) { f.push(format!("Iri::as_base() of {} differs from BaseIri::new of the same text", show(s))); }
+            let p = Parts { scheme: Some(a.scheme().to_string()), authority: a.authority().map(String::from), path: a.path().to_string(), query: a.query().map(String::from), fragment: a.fragment().map(String::from) };
+            let po = Parts { scheme: Some(ao.scheme().to_string()), authority: ao.authority().map(String::from), path: ao.path().to_string(), query: ao.query().map(String::from), fragment: ao.fragment().map(String::from) };
+            if p != po { f.push(format!("Iri::as_base() and to_base() of {} report different components", show(s))); }
+            (f, p)
+        });
+        match r {
+            Ok((f, p)) => { fails.extend(f); if comp.as_ref().map(|c| &c.1) != Some(&p) { fails.push(format!("BaseIri({}) and BaseIriRef of the same text report different components: {:?} vs {:?}", show(s), p, comp)); } }
+            Err(p) => fails.push(format!("Iri::new({}) is accepted but the conversions to/through BaseIri panic: {p}", show(s))),
+        }
+    }
+    (ox_abs, ox_ref, comp)
+}
+
+/// Namespace: the other constructors and what `get` / `get_unchecked` return
+fn namespace_checks(ns: &str, suf: &str, s: &str, ns_ok: bool, get_ok: bool, fails: &mut Vec<String>) {
+    let r = quiet(|| {
+        let mut f: Vec<String> = vec![];
+        match Namespace::new(ns.to_string()) {
+            Err(InvalidIri(e)) => { if ns_ok { f.push(format!("Namespace::<String>::new({}) is Err, on a &str it is Ok", show(ns))); } if e != ns { f.push(format!("Namespace::new({}) returns InvalidIri({})", show(ns), show(&e))); } }
+            Ok(n) => {
+                if !ns_ok { f.push(format!("Namespace::<String>::new({}) is Ok, on a &str it is Err", show(ns))); }
+                let g = n.get(suf).is_ok();
+                if g != get_ok { f.push(format!("Namespace::<String>({}).get({}).is_ok() = {g}, with a &str namespace {get_ok}", show(ns), show(suf))); }
+            }
+        }
+        if ns_ok {
+            let n = Namespace::new(ns).unwrap();
+            let k = Namespace::new_unchecked_const(leak(ns));
+            let mut texts: Vec<(&str, String, &str)> = vec![
+                ("Deref as_str", n.as_str().to_string(), ns),
+                ("inner()", n.inner().unwrap().to_string(), ns),
+                ("From<IriRef>", Namespace::from(IriRef::new(ns).unwrap()).inner().unwrap().to_string(), ns),
+                ("From<IriRef<Box<str>>>", Namespace::from(IriRef::new(Box::<str>::from(ns)).unwrap()).as_str().to_string(), ns),
+                ("new_unchecked", Namespace::new_unchecked(ns).as_str().to_string(), ns),
+                ("new_unchecked_const", k.as_str().to_string(), ns),
+                ("get_unchecked to_string", n.get_unchecked(suf).to_string(), s),
+                ("new_unchecked_const get_unchecked", k.get_unchecked(suf).to_string(), s),
+            ];
+            if k.get(suf).is_ok() != get_ok { f.push(format!("Namespace::new_unchecked_const({}).get({}).is_ok() differs from Namespace::new(..).get", show(ns), show(suf))); }
+            let nf = Namespace::from(IriRef::new(ns).unwrap());
+            if nf.get(suf).is_ok() != get_ok { f.push(format!("Namespace::from(IriRef({})).get({}).is_ok() differs from Namespace::new(..).get", show(ns), show(suf))); }
+            if let Ok(t) = n.get(suf) {
+                texts.push(("get to_string", t.to_string(), s));
+                texts.push(("get iriref()", t.iriref().as_str().to_string(), s));
+                texts.push(("get to_iriref()", t.to_iriref().as_str().to_string(), s));
+            }
+            for (m, t, e) in texts { if t != e { f.push(format!("Namespace({}) / suffix {}: {m} gives {}", show(ns), show(suf), show(&t))); } }
+        }
+        f
+    });
+    match r { Ok(f) => fails.extend(f), Err(p) => fails.push(format!("Namespace({}) with suffix {}: a constructor or accessor panics: {p}", show(ns), show(suf))) }
+}
+
+/// does the first path segment (the part before the first '/', '?' or '#') contain a ':'
+fn first_colon_segment(s: &str) -> bool { s.split(|c| c == '/' || c == '?' || c == '#').next().unwrap_or("").contains(':') }
+/// what every resolve entry point returns for one (base, reference)
+struct ResObs {
+    /// reference passed as a typed value (only when IriRef::new accepts it): Ok(text) or Err(panic message)
+    typed: Vec<(&'static str, Result<String, String>)>,
+    /// reference passed as &str: Ok(Some(text)) / Ok(None) for Err(IriParseError) / Err(panic message)
+    strv: Vec<(&'static str, Result<Option<String>, String>)>,
+    /// Debug text of the first IriParseError
+    err: Option<String>,
+}
+fn resolve_all(base: &str, base_abs: bool, rf: &str, rf_ref: bool, rf_abs: bool) -> ResObs {
+    let mut typed: Vec<(&'static str, Result<String, String>)> = vec![];
+    let mut strv: Vec<(&'static str, Result<Option<String>, String>)> = vec![];
+    let mut err = None;
+    if base_abs {
+        if rf_ref {
+            typed.push(("BaseIri<&str>::resolve(IriRef<&str>)", quiet(|| { let bi = Iri::new(base).unwrap(); let b = bi.as_base(); b.resolve(IriRef::new(rf).unwrap()).unwrap() })));
+            typed.push(("Iri<&str>::resolve(IriRef<&str>)", quiet(|| Iri::new(base).unwrap().resolve(IriRef::new(rf).unwrap()).unwrap())));
+            typed.push(("Iri<Box<str>>::resolve(IriRef<Rc<str>>)", quiet(|| Iri::new(Box::<str>::from(base)).unwrap().resolve(IriRef::new(Rc::<str>::from(rf)).unwrap()).unwrap())));
+            typed.push(("BaseIri<String>::resolve(IriRef<String>)", quiet(|| Iri::new(base.to_string()).unwrap().to_base().resolve(IriRef::new(rf.to_string()).unwrap()).unwrap())));
+            typed.push(("BaseIri::as_ref().resolve(BaseIriRef<&str>)", quiet(|| { let b = Iri::new(base.to_string()).unwrap().to_base(); let ri = IriRef::new(rf).unwrap(); BaseIri::as_ref(&b).resolve(ri.as_base()).unwrap() })));
+            typed.push(("BaseIri::resolve_into(IriRef<&str>)", quiet(|| { let bi = Iri::new(base).unwrap(); let b = bi.as_base(); let mut buf = String::new(); let o = b.resolve_into(IriRef::new(rf).unwrap(), &mut buf).as_str().to_string(); if o == buf { o } else { format!("{o} [but the buffer holds {buf}]") } })));
+            typed.push(("BaseIri::resolve_into(IriRef<String>) in a cleared buffer", quiet(|| { let b = Iri::new(base.to_string()).unwrap().to_base(); let mut buf = String::from("s:previous/content"); buf.clear(); let o = b.resolve_into(IriRef::new(rf.to_string()).unwrap(), &mut buf).unwrap().to_string(); if o == buf { o } else { format!("{o} [but the buffer holds {buf}]") } })));
+            if rf_abs {
+                typed.push(("BaseIri::resolve(Iri<&str>)", quiet(|| { let bi = Iri::new(base).unwrap(); bi.as_base().resolve(Iri::new(rf).unwrap()).unwrap() })));
+                typed.push(("BaseIri::resolve(BaseIri<String>)", quiet(|| { let bi = Iri::new(base).unwrap(); bi.as_base().resolve(Iri::new(rf.to_string()).unwrap().to_base()).unwrap() })));
+            }
+            typed.push(("BaseIriRef::to_base_iri().resolve(IriRef<&str>)", quiet(|| IriRef::new(base).unwrap().to_base().to_base_iri().resolve(IriRef::new(rf).unwrap()).unwrap())));
+        }
+        strv.push(("BaseIri::resolve(&str)", quiet(|| { let bi = Iri::new(base).unwrap(); bi.as_base().resolve(rf).map(|i| i.unwrap()).map_err(|e| format!("{e:?}")) }).map(|x| match x { Ok(t) => Some(t), Err(e) => { err.get_or_insert(e); None } })));
+        strv.push(("BaseIri::resolve_into(&str)", quiet(|| { let b = Iri::new(base.to_string()).unwrap().to_base(); let mut buf = String::new(); let o = b.resolve_into(rf, &mut buf).ok().map(|i| i.as_str().to_string()); o.map(|o| if o == buf { o } else { format!("{o} [but the buffer holds {buf}]") }) })));
+    }
+    if rf_ref {
+        typed.push(("BaseIriRef<&str>::resolve(IriRef<&str>)", quiet(|| { let bi = IriRef::new(base).unwrap(); let b = bi.as_base(); b.resolve(IriRef::new(rf).unwrap()).unwrap() })));
+        typed.push(("IriRef<&str>::resolve(IriRef<&str>)", quiet(|| IriRef::new(base).unwrap().resolve(IriRef::new(rf).unwrap()).unwrap())));
+        typed.push(("IriRef<Arc<str>>::resolve(IriRef<Cow>)", quiet(|| IriRef::new(Arc::<str>::from(base)).unwrap().resolve(IriRef::new(Cow::Borrowed(rf)).unwrap()).unwrap())));
+        typed.push(("BaseIriRef<String>::resolve(BaseIriRef<&str>)", quiet(|| { let ri = IriRef::new(rf).unwrap(); IriRef::new(base.to_string()).unwrap().to_base().resolve(ri.as_base()).unwrap() })));
+        typed.push(("BaseIriRef::resolve_into(IriRef<&str>)", quiet(|| { let bi = IriRef::new(base).unwrap(); let b = bi.as_base(); let mut buf = String::new(); let o = b.resolve_into(IriRef::new(rf).unwrap(), &mut buf).as_str().to_string(); if o == buf { o } else { format!("{o} [but the buffer holds {buf}]") } })));
+        if rf_abs { typed.push(("BaseIriRef::resolve(Iri<&str>)", quiet(|| { let bi = IriRef::new(base).unwrap(); bi.as_base().resolve(Iri::new(rf).unwrap()).unwrap() }))); }
+    }
+    strv.push(("BaseIriRef::resolve(&str)", quiet(|| { let bi = IriRef::new(base).unwrap(); bi.as_base().resolve(rf).map(|i| i.unwrap()).map_err(|e| format!("{e:?}")) }).map(|x| match x { Ok(t) => Some(t), Err(e) => { err.get_or_insert(e); None } })));
+    strv.push(("BaseIriRef::resolve_into(&str)", quiet(|| { let b = IriRef::new(base.to_string()).unwrap().to_base(); let mut buf = String::new(); let o = b.resolve_into(rf, &mut buf).ok().map(|i| i.as_str().to_string()); o.map(|o| if o == buf { o } else { format!("{o} [but the buffer holds {buf}]") }) })));
+    ResObs { typed, strv, err }
+}
+/// all entry points agree with one another; the &str entry points accept exactly the RFC 3987 references (but for the
+/// known corner where the resolver refuses a path that would start with "//"); the result is an accepted value.
+/// Returns (typed result if the reference is typed, &str result).
+fn resolve_consistency(base: &str, base_abs: bool, rf: &str, rf_valid_rfc: bool, o: &ResObs, fails: &mut Vec<String>, sum: &mut Summary) -> (Option<Result<String, String>>, Option<Option<String>>) {
+    let what = if base_abs { "absolute" } else { "relative" };
+    let typed0 = o.typed.first().map(|x| x.1.clone());
+    if let Some((n0, t0)) = o.typed.first() {
+        for (n, t) in &o.typed[1..] {
+            let same = match (t0, t) { (Ok(a), Ok(b)) => a == b, (Err(_), Err(_)) => true, _ => false };
+            if !same { fails.push(format!("resolve entry points differ on base {} ref {}: {n0} gives {:?}, {n} gives {:?}", show(base), show(rf), t0, t)); }
+        }
+    }
+    let mut str0: Option<Option<String>> = None;
+    for (n, t) in &o.strv {
+        match t {
+            Err(p) if !base_abs && p.contains("InvalidIri(") => fails.push(format!("[relative base: resolve result is not an IRI reference] {n} of {} against the accepted relative base {} panics in IriRef::new_unchecked (dev build; a release build returns the invalid value): {p}", show(rf), show(base))),
+            Err(p) => fails.push(format!("[resolve(&str) panics] {n} of {} against the {what} base {} panics: {p}", show(rf), show(base))),
+            Ok(x) => match &str0 { None => str0 = Some(x.clone()), Some(y) => if x != y { fails.push(format!("resolve entry points differ on base {} ref {}: {} gives {:?}, {n} gives {:?}", show(base), show(rf), o.strv[0].0, y, x)); } },
+        }
+    }
+    if let (Some(t), Some(x)) = (&typed0, &str0) {
+        if t.as_ref().ok() != x.as_ref() { fails.push(format!("typed and &str resolution differ on base {} ref {}: {:?} vs {:?}", show(base), show(rf), t, x)); }
+    }
+    match &str0 {
+        Some(Some(x)) => {
+            sum.bump("resolve(&str):Ok");
+            if !rf_valid_rfc { fails.push(format!("[resolver's recogniser differs from RFC 3987] resolve(&str) against {} accepts {} which is not an RFC 3987 IRI reference (result {})", show(base), show(rf), show(x))); }
+            let ok = if base_abs { rfc_iri(x) } else { rfc_iri(x) || rfc_irelative_ref(x) };
+            if !ok && typed0.is_none() { fails.push(format!("[resolve result is not an IRI] resolve(&str) of {} against {} gives {} which is not an RFC 3987 {}", show(rf), show(base), show(x), if base_abs { "IRI" } else { "IRI reference" })); }
+        }
+        Some(None) => {
+            let two = o.err.as_deref().map_or(false, |e| e.contains("PathStartingWithTwoSlashes"));
+            if rf_valid_rfc && two { sum.bump("resolve(&str):Err on the known '//' corner"); }
+            else if rf_valid_rfc { fails.push(format!("[resolver's recogniser differs from RFC 3987] resolve(&str) against {} rejects the valid reference {} ({:?})", show(base), show(rf), o.err)); }
+            else { sum.bump("resolve(&str):Err on an invalid reference"); }
+        }
+        None => {}
+    }
+    (typed0, str0)
+}
 
 fn probe(hexs: &str) {
     let bytes: Vec<u8> = (0..hexs.len() / 2).map(|i| u8::from_str_radix(&hexs[2 * i..2 * i + 2], 16).unwrap()).collect();
@@ -326,7 +701,9 @@ fn main() {
     if let Some(i) = a.rest.iter().position(|x| x == "--probe") { probe(&a.rest[i + 1]); return; }
     let mut sum = Summary::default();
     sum.rule = "case = one string (systematic list first: all IPv6 shapes with 0-8 groups around '::', IPvFuture incl. 'V', dec-octet boundaries, every ucschar/iprivate range end +-1 and every ASCII character in every component; then generated members of IRI / irelative-ref, their single-character mutants, random strings over 31 delimiter-heavy characters) checked for validation, as_base and Namespace::get, \
-plus (for 2 cases out of 3) a (base, reference) pair of generated members with dot segments checked for resolution; non-trivial = contains an IP-literal, a non-ASCII or percent-encoded character, a userinfo/port, an empty or dot segment, or is rejected by someone; distinct = distinct (string, base, reference)".into();
+plus (for 2 cases out of 3) a (base, reference) pair of generated members with dot segments checked for resolution through every resolve entry point; \
+on every case also: the validators called directly (is_valid_iri_ref, is_valid_suffixed_iri_ref), the constructors over 7 container types with every accessor/conversion/comparison of the wrappers, BaseIri/BaseIriRef::new and their components, Namespace's other constructors, \
+and a second pair (absolute or relative base, directed or generated; reference = the case's string 2 times out of 3, valid or not) resolved as typed value and as &str; non-trivial = contains an IP-literal, a non-ASCII or percent-encoded character, a userinfo/port, an empty or dot segment, or is rejected by someone; distinct = distinct (string, base, reference)".into();
     let sys = systematic();
     let base = Rng::new(a.seed);
     let mut cases = vec![];
@@ -380,38 +757,102 @@ plus (for 2 cases out of 3) a (base, reference) pair of generated members with d
         let mut text = format!("{kind} {}", show(&s));
         let mut nontrivial = s.contains('[') || s.contains('%') || !s.is_ascii() || s.contains('@') || s.contains("//") || s.contains("/.") || !(v.abs || v.rel);
         // ---------- a (base, reference) pair ----------
+        let mut pair: Option<(String, String)> = None;
         if idx % 3 != 0 {
-            let b = if r.chance(1, 6) { r.pick(&["s:/a", "s:a", "s:", "s://h", "s://h/", "http://a/b/c/d;p?q", "s:/a/b", "s:a/b", "s://h?q", "s:/.."]).to_string() } else { gen_member(&mut r, true, true) };
-            let rf = if r.chance(1, 4) { r.pick(&["", ".", "..", "./", "../", "../..", "../../..", "/.//x", "/./", "/..", "//h/..", "//h/./x", "g:h", "g:/a/../b", "g:a/./b", "?y", "#s", "./g:h", "..//x", ".//x", "x/../../../y", "/", "//", "///x", "a/./b/../c", "%2e%2e/x", ".a", "..a/b", "http:g", ";x", "g;x=1/../y"]).to_string() } else { let abs = r.chance(1, 5); gen_member(&mut r, abs, true) };
+            let b = if r.chance(1, 6) { r.pick(DIRECTED_BASES).to_string() } else { gen_member(&mut r, true, true) };
+            let rf = if r.chance(1, 4) { r.pick(DIRECTED_REFS).to_string() } else { let abs = r.chance(1, 5); gen_member(&mut r, abs, true) };
             let (vb, vr) = (verdicts(&b), verdicts(&rf));
             text.push_str(&format!(" | base {} ref {}", show(&b), show(&rf)));
+            pair = Some((b.clone(), rf.clone()));
             if vb.iri && vr.iref {
                 sum.bump("pairs-resolved");
                 let expected = resolve52(&b, &rf);
                 let got = quiet(|| { let bi = Iri::new(b.as_str()).unwrap(); let base = bi.as_base(); let out = base.resolve(IriRef::new(rf.as_str()).unwrap()); out.as_str().to_string() });
                 let got2 = quiet(|| Iri::new(b.as_str()).unwrap().resolve(IriRef::new(rf.as_str()).unwrap()).as_str().to_string());
-                match &got {
-                    Ok(g) => {
-                        if *g != expected {
-                            let (pb, pr) = (parse5(&b), parse5(&rf));
-                            let dotty = |p: &str| p.split('/').any(|x| x == "." || x == "..");
-                            let tag = if pr.scheme.is_some() || pr.authority.is_some() { "dot segments are kept in a reference that has a scheme or an authority" }
-                                else if !pr.path.starts_with('/') && !pr.path.is_empty() && dotty(&pb.path) { "dot segments of the base path are kept" }
-                                else if pb.authority.is_none() { "'..' above the root of a base without authority" }
-                                else { "other" };
-                            fails.push(format!("[resolve differs from RFC 3986 5.2: {tag}] resolving {} against {} gives {} but RFC 3986 5.2 gives {}", show(&rf), show(&b), show(g), show(&expected)));
-                            sum.bump(&format!("resolve:differs-from-5.2:{tag}"));
-                        }
-                        if !rfc_iri(g) { fails.push(format!("[resolve result is not an IRI] resolving {} against {} gives {} which is not an RFC 3987 IRI", show(&rf), show(&b), show(g))); }
-                        else if !Iri::new(g.as_str()).is_ok() && vb.o_iri && (vr.o_iri || vr.o_rel) { fails.push(format!("[resolve result is rejected] resolving {} against {} gives {} which Iri::new rejects", show(&rf), show(&b), show(g))); }
-                        if got2.as_ref().ok() != Some(g) { fails.push(format!("Iri::resolve and BaseIri::resolve differ on base {} ref {}: {:?} vs {}", show(&b), show(&rf), got2, show(g))); }
-                    }
-                    Err(p) => { fails.push(format!("[resolve panics] resolving the accepted reference {} against the accepted base {} panics ({p}); RFC 3986 5.2 gives {}", show(&rf), show(&b), show(&expected))); sum.bump("resolve:panic"); }
-                }
+                spec_check(&b, &rf, &got, vb.o_iri && (vr.o_iri || vr.o_rel), &mut fails, &mut sum);
+                if let Ok(g) = &got { if got2.as_ref().ok() != Some(g) { fails.push(format!("Iri::resolve and BaseIri::resolve differ on base {} ref {}: {:?} vs {}", show(&b), show(&rf), got2, show(g))); } }
+                // every other entry point: owned/borrowed containers, resolve_into, BaseIriRef, references typed otherwise, &str
+                let obs = resolve_all(&b, true, &rf, true, vr.iri);
+                let (typed0, str0) = resolve_consistency(&b, true, &rf, vr.o_iri || vr.o_rel, &obs, &mut fails, &mut sum);
+                if let Some(t0) = &typed0 { if t0.as_ref().ok() != got.as_ref().ok() { fails.push(format!("resolve entry points differ on base {} ref {}: {:?} vs {:?}", show(&b), show(&rf), t0, got)); } }
+                sum.bump(&format!("resolve-entry-points-per-pair:{}", obs.typed.len() + obs.strv.len()));
+                if let Some(x) = &str0 { body.push_str(&format!(" && res_str_ok {} {} {}", coq_str(&b), coq_str(&rf), coq_opt(x.as_ref().map(|g| coq_str(g))))); }
                 body.push_str(&format!(" && res_ok {} {} {}", coq_str(&b), coq_str(&rf), coq_opt(got.as_ref().ok().map(|g| coq_str(g)))));
                 if verbose { println!("  resolve: got {:?}, RFC 3986 5.2 oracle {}", got, show(&expected)); }
                 nontrivial = nontrivial || rf.contains('.') || b.contains("/.");
             } else { sum.bump("pairs-not-both-accepted"); }
+        }
+        // ---------- the other public entry points (their random choices come from a separate fork of the seed) ----------
+        let mut r2 = base.fork((idx as u64) | (1 << 40));
+        {
+            let valid_oracle = v.o_iri || v.o_rel;
+            // validators
+            let valid = is_valid_iri_ref(&s);
+            let suf_none = is_valid_suffixed_iri_ref(&s, None);
+            let suf_some = is_valid_suffixed_iri_ref(&ns, Some(&suf));
+            for (n, x) in [("is_valid_iri_ref(s)", valid), ("is_valid_suffixed_iri_ref(s, None)", suf_none), ("is_valid_suffixed_iri_ref(ns, Some(suffix))", suf_some),
+                           ("is_valid_suffixed_iri_ref(\"\", Some(s))", is_valid_suffixed_iri_ref("", Some(&s))), ("is_valid_suffixed_iri_ref(s, Some(\"\"))", is_valid_suffixed_iri_ref(&s, Some("")))] {
+                if x != valid_oracle { fails.push(format!("{n} = {x} for s = {} (ns = {}, suffix = {}) but the RFC 3987 rule IRI-reference {} it", show(&s), show(&ns), show(&suf), if valid_oracle { "accepts" } else { "rejects" })); }
+            }
+            body.push_str(&format!(" && suffixed_ok {} {} {} {} {}", coq_str(&s), cut, coq_bool(valid), coq_bool(suf_none), coq_bool(suf_some)));
+            // a second accepted text to compare with
+            let other: String = match r2.below(6) {
+                0 => s.clone(),
+                1 => format!("{s}a"),
+                2 => { let mut c: Vec<char> = s.chars().collect(); c.pop(); c.into_iter().collect() }
+                3 => pair.as_ref().map_or_else(|| s.clone(), |p| p.0.clone()),
+                4 => pair.as_ref().map_or_else(|| s.to_uppercase(), |p| p.1.clone()),
+                _ => { let mut c: Vec<char> = s.chars().collect(); if let Some(l) = c.last_mut() { *l = if *l == 'b' { 'a' } else { 'b' }; } c.into_iter().collect() }
+            };
+            let vo = verdicts(&other);
+            // constructors over every container type, accessors, conversions, comparisons
+            let ci = over_containers!(iri_wrapper_checks, s.as_str(), v.iri, Some(other.as_str()), &mut fails);
+            let cr = over_containers!(iriref_wrapper_checks, s.as_str(), v.iref, Some(other.as_str()), &mut fails);
+            if let (Some(a), Some(b)) = (ci, cr) { if a != b { fails.push(format!("Iri and IriRef order {} and {} differently", show(&s), show(&other))); } }
+            if v.iref && vo.iref { hetero_checks(&s, &other, v.iri && vo.iri, &mut fails); sum.bump("wrapper-comparisons"); }
+            if let Some(c) = cr { body.push_str(&format!(" && cmp_ok {} {} {}", coq_str(&s), coq_str(&other), match c { Ordering::Less => "Lt", Ordering::Equal => "Eq", Ordering::Greater => "Gt" })); sum.bump(&format!("wrapper-order:{c:?}")); }
+            // the resolver's recogniser and component accessors
+            let (ox_abs, ox_ref, comp) = base_checks(&s, &v, &mut fails);
+            body.push_str(&format!(" && basenew_ok {} {} {}", coq_str(&s), coq_bool(ox_abs), coq_bool(ox_ref)));
+            if let Some((abs, p)) = &comp {
+                let o = |x: &Option<String>| coq_opt(x.as_ref().map(|y| coq_str(y)));
+                body.push_str(&format!(" && parts_ok {} {} {} {} {} {} {}", coq_str(&s), coq_bool(*abs), o(&p.scheme), o(&p.authority), coq_str(&p.path), o(&p.query), o(&p.fragment)));
+                sum.bump("components-compared");
+            }
+            namespace_checks(&ns, &suf, &s, ns_ok, get_ok, &mut fails);
+            // resolution of (mostly) the case's own string, also when it is not a valid reference, against an absolute or a relative base
+            let nb = if r2.chance(1, 2) { if r2.chance(1, 4) { r2.pick(DIRECTED_BASES).to_string() } else { gen_member(&mut r2, true, true) } }
+                     else if r2.chance(1, 3) { r2.pick(DIRECTED_REL_BASES).to_string() } else { gen_member(&mut r2, false, true) };
+            let nr = match r2.below(6) { 0 => r2.pick(DIRECTED_REFS).to_string(), 1 => { let abs = r2.chance(1, 5); gen_member(&mut r2, abs, true) } _ => s.clone() };
+            let (nb, nr) = if r2.chance(1, 12) { let p = r2.pick(DIRECTED_REL_PAIRS); (p.0.to_string(), p.1.to_string()) } else { (nb, nr) };
+            let (vnb, vnr) = (verdicts(&nb), verdicts(&nr));
+            if verbose { println!("  second pair: base {} ref {}", show(&nb), show(&nr)); }
+            if vnb.iref {
+                sum.bump(if vnb.iri { "second-pair:absolute-base" } else { "second-pair:relative-base" });
+                let obs = resolve_all(&nb, vnb.iri, &nr, vnr.iref, vnr.iri);
+                let (typed0, str0) = resolve_consistency(&nb, vnb.iri, &nr, vnr.o_iri || vnr.o_rel, &obs, &mut fails, &mut sum);
+                if verbose { println!("  second pair: typed {:?} &str {:?} ({:?})", typed0, str0, obs.err); }
+                if let Some(t0) = &typed0 {
+                    if vnb.iri { spec_check(&nb, &nr, t0, vnb.o_iri && (vnr.o_iri || vnr.o_rel), &mut fails, &mut sum); }
+                    else {
+                        match t0 {
+                            Ok(g) => {
+                                if !(rfc_iri(g) || rfc_irelative_ref(g)) { fails.push(format!("[relative base: resolve result is not an IRI reference] resolving {} against the relative base {} gives {} which is not an RFC 3987 IRI reference", show(&nr), show(&nb), show(g))); }
+                                else if !IriRef::new(g.as_str()).is_ok() && (vnr.o_iri || vnr.o_rel) { fails.push(format!("[resolve result is rejected] resolving {} against the relative base {} gives {} which IriRef::new rejects", show(&nr), show(&nb), show(g))); }
+                                // two references without a scheme resolve to a reference without a scheme (RFC 3986 4.2: "./" before a first segment with ':')
+                                if !vnr.o_iri && rfc_iri(g) { fails.push(format!("[relative base: resolve result is not an IRI reference] resolving the relative reference {} against the relative base {} gives {} which has a scheme", show(&nr), show(&nb), show(g))); }
+                                if vnr.o_iri && !rfc_iri(g) { fails.push(format!("resolving the absolute reference {} against the relative base {} gives {} which is not absolute", show(&nr), show(&nb), show(g))); }
+                                sum.bump(if g.starts_with("./") && parse5(&nr).scheme.is_none() && first_colon_segment(&g[2..]) { "resolve:relative-base:first segment protected by './'" } else { "resolve:relative-base:Ok" });
+                            }
+                            Err(p) if p.contains("InvalidIri(") => { fails.push(format!("[relative base: resolve result is not an IRI reference] resolving the accepted reference {} against the accepted relative base {} panics in IriRef::new_unchecked (dev build; a release build returns the invalid value): {p}", show(&nr), show(&nb))); sum.bump("resolve:relative-base-invalid-result"); }
+                            Err(p) => { fails.push(format!("[resolve panics] resolving the accepted reference {} against the accepted relative base {} panics ({p})", show(&nr), show(&nb))); sum.bump("resolve:panic"); }
+                        }
+                    }
+                    body.push_str(&format!(" && {} {} {} {}", if vnb.iri { "res_ok" } else { "res_rel_ok" }, coq_str(&nb), coq_str(&nr), coq_opt(t0.as_ref().ok().map(|g| coq_str(g)))));
+                }
+                if let Some(x) = &str0 { body.push_str(&format!(" && res_str_ok {} {} {}", coq_str(&nb), coq_str(&nr), coq_opt(x.as_ref().map(|g| coq_str(g))))); }
+                text.push_str(&format!(" | base {} ref {}", show(&nb), show(&nr)));
+            } else { sum.bump("second-pair:base-not-accepted"); }
         }
         if verbose {
             println!("CASE {idx}: {text}");
